@@ -111,7 +111,11 @@ SubstVars(e, sol) ==
 JudgeSolve(eqs, unknowns, res0, par) ==
     \* one equation for the two unknowns is under-determined: like a singular 2x2 system it
     \* determines no unique values
-    LET det == IF Len(eqs) = 2 THEN Det2(eqs[1], eqs[2]) ELSE 0
+    \* (of three equations, two with a non-zero determinant determine the values; the third either
+    \* follows - then the solution satisfies it - or contradicts them - then nothing satisfies all)
+    LET det == IF Len(eqs) = 2 THEN Det2(eqs[1], eqs[2])
+               ELSE IF Len(eqs) = 3 /\ \E i, j \in 1..3 : i < j /\ Det2(eqs[i], eqs[j]) # 0 THEN 1
+               ELSE 0
         res == IF res0.r = "ok"
                THEN [res0 EXCEPT !.sol = [i \in 1..Len(res0.sol) |->
                                            [name |-> res0.sol[i].name, e |-> OutPar(res0.sol[i].e, par)]]]
